@@ -208,7 +208,7 @@ def _value(b, t, label, wants, in_union=False, under_map=False, depth=0):
 
 def _build(b, ns, d, label, wants):
     g, idx = b.g, b.idx
-    doc = g.choice(EX_WORDS) if b.cfg.docs else None
+    doc = g.choice([w for w in EX_WORDS if not (w and b.cfg.avoid_word_namespace and 'namespace' in w)]) if b.cfg.docs else None
     if d['k'] == 'struct':
         if d.get('subtypes'):
             cands = [(tag, kid) for tag, kid in d['subtypes']['items'] if idx.get(ns, kid)['examples']]
